@@ -56,7 +56,7 @@ Lemma setattr_frame E c s n v m :
   m <> n -> m <> shadow n -> get (fst (setattr E c s n v)) m = get s m.
 Proof.
   intros H1 H2. unfold setattr. destruct (trait_of c n) as [[d dflt]|]; [|reflexivity].
-  destruct (if is_undefined v then Accept v else validate E d v) as [w| |e]; try reflexivity.
+  destruct (if is_undefined v then (if always_validated d then validate_s E c s d v else Accept v) else validate_s E c s d v) as [w| |e]; try reflexivity.
   destruct (post_setattr d w) as [|x|e]; cbn [fst].
   - now rewrite get_set_other.
   - destruct (get s n) as [o|].
@@ -73,13 +73,13 @@ Qed.
 Lemma setattr_ok E c s n v s' d dflt :
   is_undefined v = false -> class_ok E c = true -> post_safe c = true -> ShInv c s ->
   trait_of c n = Some (d, dflt) -> setattr E c s n v = (s', Ok) ->
-  exists w, validate E d v = Accept w /\ get s' n = Some w /\ shadow_ok d w (get s' (shadow n)) = true.
+  exists w, validate_s E c s d v = Accept w /\ get s' n = Some w /\ shadow_ok d w (get s' (shadow n)) = true.
 Proof.
   intros Hu Hc Hp HS Ht. destruct (class_ok_at E c _ _ _ Hc Ht) as (_ & Hr & _).
   assert (Hsn : shadow n <> n) by (unfold shadow; lia).
   unfold post_safe in Hp. rewrite forallb_forall in Hp. specialize (Hp _ (trait_of_in _ _ _ _ Ht)). cbn in Hp.
   unfold setattr. rewrite Hu, Ht.
-  destruct (validate E d v) as [w| |e] eqn:Hv; try discriminate.
+  destruct (validate_s E c s d v) as [w| |e] eqn:Hv; try discriminate.
   destruct (is_mapped d) eqn:Hm.
   2:{ (* not a mapped trait: no constraint on the shadow *)
       intros H. exists w. split; [reflexivity|]. split.
@@ -89,7 +89,8 @@ Proof.
           destruct (post_setattr d dflt) as [|y|e']; try discriminate;
           destruct (pv_eqb dflt w); inversion H; subst; rewrite ?get_set_other by auto; apply get_set_same.
       - now apply shadow_ok_unmapped. }
-  destruct (accepted_is_mapped E d v w Hm Hv) as [x Hx]. rewrite Hx.
+  assert (Hv' : validate E d v = Accept w) by (destruct d; cbn in Hm; try discriminate; exact Hv).
+  destruct (accepted_is_mapped E d v w Hm Hv') as [x Hx]. rewrite Hx.
   assert (Hdx : exists y, post_setattr d dflt = PostSet y).
   { destruct d; cbn in Hm; try discriminate; destruct (post_setattr _ dflt); try discriminate; eauto. }
   destruct Hdx as [y Hy]. rewrite Hy.
@@ -148,7 +149,7 @@ Proof.
       pose proof (Hk _ _ Hin) as Htm.
       destruct (Z.eq_dec m n) as [->|Hmn].
       - rewrite Ht in Htm. inversion Htm; subst. apply orb_true_iff. right. cbn. rewrite Hg.
-        rewrite (validate_sound_lemma E dm v w); auto.
+        rewrite (vs_sound E c s dm v w); auto.
         destruct (class_ok_at E c _ _ _ Hc Ht) as (Hx & _). exact Hx.
       - apply orb_true_iff. left.
         assert (Hms : m <> shadow n) by (eapply names_shadow_disjoint; eauto).
@@ -157,7 +158,7 @@ Proof.
         rewrite (Hframe (shadow m)) by (unfold shadow in *; lia).
         now rewrite !opt_pv_refl. }
     rewrite H1. cbn [chk app]. cbn [forallb fst snd]. rewrite Ht, Hg.
-    rewrite (documented_conversion_lemma E d v w Hwf HB Hv). reflexivity.
+    rewrite (vs_conv E c s d v w Hwf HB Hv). reflexivity.
   - (* an exception: nothing changed *)
     pose proof (setattr_exception_no_effect E c s n v s' e Hu Hp Hs) as ->.
     assert (H1 : forallb (fun nd =>
@@ -276,7 +277,7 @@ Proof.
     split.
     - intros ->. apply Hnotin. apply in_map_iff. now exists p.
     - destruct (class_ok_at E c _ _ _ Hc Htp) as (_ & Hrp & _). unfold shadow. lia. }
-  rewrite Hgn, (documented_conversion_lemma E d v w Hwf HB Hv). cbn.
+  rewrite Hgn, (vs_conv E c s d v w Hwf HB Hv). cbn.
   apply (IH s1 s'); auto. split; [exact Hnd'|]. split; [|exact Hdef]. intros p Hp'. apply Htr. now right.
 Qed.
 
@@ -315,7 +316,8 @@ Proof.
     - now apply assign_all_shinv.
     - now apply assign_all_shinv.
     - pose proof (assign_all_shinv E c kw [] Hdef Hc Hp Hk (shinv_empty c)) as X.
-      destruct (assign_all E c [] kw) as [s1 [|e]]; cbn in *; assumption. }
+      destruct (assign_all E c [] kw) as [s1 [|e]]; cbn in *; assumption.
+    - now apply assign_all_shinv. }
   rewrite (entries_ok E c _ _ Hk HI' HS'). cbn [chk app].
   (* clause 2: untouched names *)
   assert (H2 : same_on (filter (fun n => negb (touched kw n)) (names_of c))
@@ -335,7 +337,9 @@ Proof.
     - destruct (assign_all E c s kw) as [s1 out] eqn:Ha. cbn [fst snd].
       pose proof (assign_all_frame E c kw s m Hnt) as F. rewrite Ha in F. cbn in F. now destruct out.
     - destruct (assign_all E c [] kw) as [s1 [|e]] eqn:Ha; cbn [fst snd]; [|reflexivity].
-      pose proof (assign_all_frame E c kw [] m Hnt) as F. rewrite Ha in F. cbn in F. now rewrite F. }
+      pose proof (assign_all_frame E c kw [] m Hnt) as F. rewrite Ha in F. cbn in F. now rewrite F.
+    - destruct (assign_all E c s kw) as [s1 out] eqn:Ha. cbn [fst snd].
+      pose proof (assign_all_frame E c kw s m Hnt) as F. rewrite Ha in F. cbn in F. now destruct out. }
   rewrite H2. cbn [chk app].
   (* clauses 3, 4, 5 *)
   destruct h; cbn [step].
@@ -364,6 +368,16 @@ Proof.
     + rewrite same_on_refl. cbn [chk app].
       destruct (assign_all_exn E c kw [] s1 e Hc Hp Hok Ha) as [->|Hx]; [reflexivity|].
       destruct e; rewrite ?Hx; reflexivity.
+  - (* TraitSetQ *) destruct (assign_all E c s kw) as [s1 [|e]] eqn:Ha; cbn [fst snd].
+    + rewrite (assign_all_ok E c kw s s1 Hc Hp HS Hk Hok Ha). reflexivity.
+    + assert (H3 : match kw with [_] => same_on (names_of c) s s1 | _ => true end = true).
+      { destruct kw as [|[n v] [|q kw']]; try reflexivity.
+        cbn in Ha. destruct (setattr E c s n v) as [s2 [|e2]] eqn:Hs; inversion Ha; subst.
+        assert (Hu : is_undefined v = false) by (cbn in Hdef; apply andb_prop in Hdef as [Hu _]; now apply negb_true_iff in Hu).
+        rewrite (setattr_exception_no_effect E c s n v s1 e Hu Hp Hs). apply same_on_refl. }
+      destruct (assign_all_exn E c kw s s1 e Hc Hp Hok Ha) as [->|Hx].
+      * destruct kw as [|p [|q kw']]; rewrite ?H3; reflexivity.
+      * destruct kw as [|p [|q kw']]; rewrite ?H3; cbn [chk app]; destruct e; rewrite ?Hx; reflexivity.
 Qed.
 
 Lemma law_on_every_history E c : class_ok E c = true -> post_safe c = true -> keys_unique c ->
@@ -382,4 +396,5 @@ Proof.
     + now apply assign_all_shinv.
     + pose proof (assign_all_shinv E c kw [] Hdef Hc Hp Hk (shinv_empty c)) as X.
       destruct (assign_all E c [] kw) as [s1 [|e]]; cbn in *; assumption.
+    + now apply assign_all_shinv.
 Qed.
